@@ -269,6 +269,136 @@ pub fn exponent_sweep_positions() -> Vec<(f64, f64)> {
   v
 }
 
+
+/// "Round" user values: every integer number of degrees of latitude, longitudes every 15 degrees
+/// (converted with `to_radians`, as a user would): 45 deg is bit for bit pi/4, 30 deg is asin(1/2) ...
+pub fn degree_positions() -> Vec<(f64, f64)> {
+  let mut v = vec![];
+  for lat in -90..=90 {
+    for lon in (-30..=375).step_by(15) {
+      v.push(((lon as f64 + if lon % 2 == 0 { 0.0 } else { 0.5 }).to_radians(), (lat as f64).to_radians().max(-HALF_PI).min(HALF_PI)));
+    }
+  }
+  v
+}
+
+/// Numeric literals of the CURRENT sources of the subject (/repo/src/**/*.rs, read at run time):
+/// (integers, floats).  A constant the code compares its input with is the one input value worth
+/// trying; the alphabets built from them follow the code as it changes.
+pub fn source_literals() -> (Vec<u64>, Vec<f64>) {
+  fn walk(dir: &std::path::Path, out: &mut Vec<std::path::PathBuf>) {
+    if let Ok(rd) = std::fs::read_dir(dir) {
+      for e in rd.flatten() {
+        let p = e.path();
+        if p.is_dir() {
+          walk(&p, out);
+        } else if p.extension().map(|x| x == "rs").unwrap_or(false) {
+          out.push(p);
+        }
+      }
+    }
+  }
+  let mut files = vec![];
+  walk(std::path::Path::new("/repo/src"), &mut files);
+  files.sort();
+  let mut ints: Vec<u64> = vec![];
+  let mut floats: Vec<f64> = vec![];
+  for f in files {
+    let text = match std::fs::read_to_string(&f) {
+      Ok(t) => t,
+      Err(_) => continue,
+    };
+    let b = text.as_bytes();
+    let mut i = 0;
+    while i < b.len() {
+      let c = b[i];
+      let prev_ident = i > 0 && (b[i - 1].is_ascii_alphanumeric() || b[i - 1] == b'_' || b[i - 1] == b'.');
+      if c.is_ascii_digit() && !prev_ident {
+        let start = i;
+        if c == b'0' && i + 1 < b.len() && (b[i + 1] == b'x' || b[i + 1] == b'X') {
+          i += 2;
+          let mut v: u128 = 0;
+          let mut nd = 0;
+          while i < b.len() && (b[i].is_ascii_hexdigit() || b[i] == b'_') {
+            if b[i] != b'_' {
+              v = (v << 4) | (b[i] as char).to_digit(16).unwrap() as u128;
+              nd += 1;
+            }
+            i += 1;
+          }
+          if nd > 0 && nd <= 16 {
+            ints.push(v as u64);
+          }
+        } else {
+          while i < b.len() && (b[i].is_ascii_digit() || b[i] == b'_') {
+            i += 1;
+          }
+          let mut is_float = false;
+          if i + 1 < b.len() && b[i] == b'.' && b[i + 1].is_ascii_digit() {
+            is_float = true;
+            i += 1;
+            while i < b.len() && (b[i].is_ascii_digit() || b[i] == b'_') {
+              i += 1;
+            }
+          }
+          if i < b.len() && (b[i] == b'e' || b[i] == b'E') && i + 1 < b.len() && (b[i + 1].is_ascii_digit() || ((b[i + 1] == b'-' || b[i + 1] == b'+') && i + 2 < b.len() && b[i + 2].is_ascii_digit())) {
+            is_float = true;
+            i += 2;
+            while i < b.len() && b[i].is_ascii_digit() {
+              i += 1;
+            }
+          }
+          let tok: String = text[start..i].chars().filter(|&ch| ch != '_').collect();
+          if is_float {
+            if let Ok(x) = tok.parse::<f64>() {
+              if x.is_finite() {
+                floats.push(x);
+              }
+            }
+          } else if let Ok(x) = tok.parse::<u64>() {
+            ints.push(x);
+          }
+        }
+        // skip a type suffix
+        while i < b.len() && (b[i].is_ascii_alphanumeric() || b[i] == b'_') {
+          i += 1;
+        }
+      } else {
+        i += 1;
+      }
+    }
+  }
+  ints.sort();
+  ints.dedup();
+  floats.sort_by(|a, b| a.partial_cmp(b).unwrap());
+  floats.dedup();
+  (ints, floats)
+}
+
+/// Coordinates derived from the integer literals of the sources, for a grid of side n = 2^depth:
+/// the literal itself and its shifts by a byte or two, kept when they are a proper "mid-word"
+/// value (>= 256: smaller ones are covered by the exhaustive low-half-word sweeps).
+pub fn literal_coords(ints: &[u64], depth: u8) -> Vec<u32> {
+  let n = 1u64 << depth;
+  let mut v: Vec<u64> = vec![];
+  for &l in ints {
+    for c in [l, l >> 8, l >> 16, l << 8, l >> 32] {
+      if c >= 256 && c < n {
+        v.push(c);
+      }
+    }
+  }
+  v.sort();
+  v.dedup();
+  // the lookup tables of the z-order curves give thousands of values: thin them deterministically
+  if v.len() > 600 {
+    let step = (v.len() + 599) / 600;
+    let kept: Vec<u64> = v.iter().enumerate().filter(|(k, x)| k % step == 0 || x.count_ones() > 4 && x.trailing_zeros() >= 8).map(|(_, x)| *x).collect();
+    v = kept;
+  }
+  v.into_iter().map(|x| x as u32).collect()
+}
+
 /// A few generic off-lattice points (lon, lat).
 pub fn generic_points() -> Vec<(f64, f64)> {
   vec![
